@@ -425,6 +425,21 @@ void name_queue(Run<P>& R) {
   }
 }
 
+// Start the queue as if `round` full rounds of the ring had already gone through it: both dispensers at
+// round * capacity and every slot word at the version an empty slot has then (2 * round, truncated to 16 bits).
+// Rounds 32766/32767 and 65534/65535 put the 16-bit slot version just before its wrap (65532/65534 -> 0), which
+// a run from 0 would only reach after 32768 * capacity operations.  The replay driver gets `base=<round>`.
+template <typename P>
+size_t preset_round(Run<P>& R, Rng& rng, int pct) {
+  if (!rng.coin(pct)) return 0;
+  size_t round = (size_t[]) {32766, 32767, 65534, 65535}[rng.below(4)];
+  R.q._next_push_index.store(round * R.cap, std::memory_order_relaxed);
+  R.q._next_pop_index.store(round * R.cap, std::memory_order_relaxed);
+  for (size_t i = 0; i < R.cap; ++i)
+    R.q._slots.futex(i)._futex.value().store((uint16_t)(2 * round), std::memory_order_relaxed);
+  return round;
+}
+
 // ---------------------------------------------------------------------------------------------
 template <typename P>
 void run_mix(uint64_t seed, int words) {
@@ -435,11 +450,20 @@ void run_mix(uint64_t seed, int words) {
   int nprod = 1 + (int)rng.below(4), ncons = 1 + (int)rng.below(4);
   if (rng.coin(40)) { nprod = 1 + (int)rng.below(2); ncons = 1 + (int)rng.below(2); }
   size_t total = 1 + rng.below(rng.coin(30) ? 4 * R.cap + 3 : 12);
+  // style 1: one exclusive (CONCURRENT=false) producer issuing mostly large try_push_n batches against 2-3 consumers
+  // popping one element at a time (pops complete out of order, so a batch crossing the ring end meets a hole);
+  // style 2: the mirror image for try_pop_n
+  int style = rng.coin(30) ? 1 + (int)rng.below(2) : 0;
+  if (style == 1) { nprod = 1; ncons = 2 + (int)rng.below(2); }
+  if (style == 2) { ncons = 1; nprod = 2 + (int)rng.below(2); }
+  if (style) total = 2 * R.cap + 1 + rng.below(3 * R.cap + 2);
+  size_t round = preset_round(R, rng, 40);
+  if (round && total < 2 * R.cap + 2) total = 2 * R.cap + 2 + rng.below(2 * R.cap + 2);   // cross the version wrap
   bool push_wake_all = rng.coin(70), pop_wake_all = rng.coin(70);
   auto pq = split(rng, total, nprod), cq = split(rng, total, ncons);
   vrt_begin(seed);
-  printf("RUN %lu bits=%d P=%d mode=mix prod=%d cons=%d total=%zu pushwake=%d popwake=%d\n", (unsigned long)seed, bits, words, nprod,
-         ncons, total, push_wake_all, pop_wake_all);
+  printf("RUN %lu bits=%d P=%d mode=mix prod=%d cons=%d total=%zu pushwake=%d popwake=%d base=%zu style=%d\n", (unsigned long)seed, bits,
+         words, nprod, ncons, total, push_wake_all, pop_wake_all, round, style);
   std::vector<std::thread> ts;
   for (int p = 0; p < nprod; ++p) {
     uint64_t tseed = rng.next();
@@ -453,8 +477,15 @@ void run_mix(uint64_t seed, int words) {
         bool W = pop_wake_all ? r.coin(60) : false;
         bool K = push_wake_all ? true : r.coin(40);
         size_t n = 1 + r.below(std::min(left, R.cap));
+        int kind = (int)r.below(4);
+        if (style == 1) {
+          C = false;
+          if (r.coin(75)) { kind = 3; n = std::min(left, R.cap - r.below(R.cap / 2 + 1)); }
+        } else if (style == 2) {
+          if (r.coin(70)) kind = (int)r.below(2);
+        }
         std::vector<uint64_t> vs;
-        switch (r.below(4)) {
+        switch (kind) {
           case 0: R.push(C, W, K, ++nextv); left -= 1; break;
           case 1:
             ++nextv;
@@ -490,7 +521,14 @@ void run_mix(uint64_t seed, int words) {
         bool W = push_wake_all ? r.coin(60) : false;
         bool K = pop_wake_all ? true : r.coin(40);
         size_t n = 1 + r.below(std::min(left, R.cap));
-        switch (r.below(4)) {
+        int kind = (int)r.below(4);
+        if (style == 2) {
+          C = false;
+          if (r.coin(75)) { kind = 3; n = std::min(left, R.cap - r.below(R.cap / 2 + 1)); }
+        } else if (style == 1) {
+          if (r.coin(70)) kind = (int)r.below(2);
+        }
+        switch (kind) {
           case 0: R.pop(C, W, K); left -= 1; break;
           case 1:
             if (!R.try_pop(C, K)) R.pop(C, W, K);
@@ -512,6 +550,18 @@ void run_mix(uint64_t seed, int words) {
   vrt_event("ret size %zu", sz);
   if (sz != 0) vrt_event("ORACLE size() = %zu at quiescence after balanced programs", sz);
   if (R.try_pop(false, true)) vrt_event("ORACLE queue not empty after balanced programs");
+  {
+    // idle queue, nobody else running: try_ operations must succeed / clear() (= try_pop_n<true,true>(capacity)) must
+    // drain — the justification oracle inside the wrappers applies because no other operation overlaps
+    size_t m = 1 + rng.below(R.cap);
+    std::vector<uint64_t> vs;
+    for (size_t i = 0; i < m; ++i) vs.push_back(900000 + i);
+    if (rng.coin()) R.try_push_n(rng.coin(), true, vs);
+    else for (size_t i = 0; i < m; ++i) R.try_push(rng.coin(), true, vs[i]);
+    if (rng.coin()) R.try_pop_n(true, true, R.cap);
+    else for (size_t i = 0; i < m; ++i) R.try_pop(rng.coin(), true);
+    if (R.try_pop(false, true)) vrt_event("ORACLE queue not empty after clear");
+  }
   R.final_oracle(true);
   vrt_event("stats steps %lu switches %lu stale %lu", vrt_steps(), vrt_switches(), (unsigned long)vrt_stale_reads());
   vrt_end();
@@ -526,8 +576,10 @@ void run_comp(uint64_t seed, int words) {
   name_queue(R);
   int nthreads = 2 + (int)rng.below(3);
   int nops = 1 + (int)rng.below(4);
+  size_t round = preset_round(R, rng, 40);
+  if (round) nops += 2;
   vrt_begin(seed);
-  printf("RUN %lu bits=%d P=%d mode=comp threads=%d ops=%d\n", (unsigned long)seed, bits, words, nthreads, nops);
+  printf("RUN %lu bits=%d P=%d mode=comp threads=%d ops=%d base=%zu\n", (unsigned long)seed, bits, words, nthreads, nops, round);
   std::vector<std::thread> ts;
   for (int t = 0; t < nthreads; ++t) {
     uint64_t tseed = rng.next();
@@ -585,10 +637,13 @@ void run_timed(uint64_t seed, int words) {
   name_queue(R);
   int nprod = 1 + (int)rng.below(3);
   size_t total = 1 + rng.below(10);
+  size_t round = preset_round(R, rng, 40);
+  if (round) total += 2 * R.cap;
   auto pq = split(rng, total, nprod);
   bool slow_producers = rng.coin(50);
   vrt_begin(seed);
-  printf("RUN %lu bits=%d P=%d mode=timed prod=%d total=%zu slow=%d\n", (unsigned long)seed, bits, words, nprod, total, slow_producers);
+  printf("RUN %lu bits=%d P=%d mode=timed prod=%d total=%zu slow=%d base=%zu\n", (unsigned long)seed, bits, words, nprod, total, slow_producers,
+         round);
   std::vector<std::thread> ts;
   for (int p = 0; p < nprod; ++p) {
     uint64_t tseed = rng.next();
